@@ -58,11 +58,20 @@ func nameAll(ins []*abi.Ty) {
 	}
 }
 
-// mutations of one valid encoding: every truncation at a 32-byte boundary and
-// +-1, every word replaced by every boundary value, random inputs
-func mutations(r *lib.RNG, base []byte, nRandom int) []abi.Mut {
+// mutations of one valid encoding: truncations (every length when the encoding
+// is small, else every 32-byte boundary and +-1), every word replaced by every
+// boundary value of the property (relative to the whole data), every
+// offset/length/count word replaced by the boundary values relative to the
+// sub-slice the decoder interprets it against, random inputs
+func mutations(r *lib.RNG, base []byte, slots []abi.Slot, nRandom int, allTrunc int) []abi.Mut {
 	ms := []abi.Mut{{Kind: "id"}}
 	seen := map[int]bool{}
+	if len(base) <= allTrunc {
+		for n := 0; n < len(base); n++ {
+			seen[n] = true
+			ms = append(ms, abi.Mut{Kind: "trunc", N: n})
+		}
+	}
 	for b := 0; b <= len(base); b += 32 {
 		for _, n := range []int{b - 1, b, b + 1} {
 			if n >= 0 && n < len(base) && !seen[n] {
@@ -74,6 +83,11 @@ func mutations(r *lib.RNG, base []byte, nRandom int) []abi.Mut {
 	for i := 0; i+32 <= len(base); i += 32 {
 		for k := 0; k < abi.NBoundary; k++ {
 			ms = append(ms, abi.Mut{Kind: "word", I: i / 32, K: k})
+		}
+	}
+	for _, sl := range slots {
+		for _, v := range abi.SlotValues(sl, len(base)) {
+			ms = append(ms, abi.Mut{Kind: "wordv", I: sl.Word, V: v})
 		}
 	}
 	for i := 0; i < nRandom; i++ {
@@ -120,6 +134,10 @@ func corpusC10() [][]*abi.Ty {
 		{tup([]int{0}, mkTy("address", 0, true), mkTy("bytes", 0, true))},
 		{tup(nil, mkTy("uint", 256, true, 3), mkTy("string", 0, true)), mkTy("bytes", 0, true, 2)},
 		{mkTy("uint", 256, true, 2, 0)},
+		{mkTy("bytes", 0, true, 0)},
+		{tup([]int{0}, mkTy("string", 0, true), mkTy("uint", 256, true))},
+		{mkTy("uint", 256, false), mkTy("string", 0, true, 0)},
+		{mkTy("string", 0, true, 0, 2)},
 	}
 	for _, ins := range res {
 		nameAll(ins)
@@ -159,20 +177,22 @@ func runC10(cfg lib.Cfg) error {
 	out := lib.NewOut("C10", cfg.Out, c10Header, "run", per)
 	out.Rule = "a run sequence is non-trivial when the declaration has a selected leaf and at least one array or dynamic member and the sequence contains truncations and boundary-value words; every sequence is scanned by one reused Result"
 	r := lib.NewRNG(cfg.Seed)
-	nDecl, maxWords, nRandom := 26, 12, 12
+	nDecl, maxWords, nRandom, allTrunc := 16, 10, 10, 512
 	if cfg.Thorough() {
-		nDecl, maxWords, nRandom = 400, 40, 60
+		nDecl, maxWords, nRandom, allTrunc = 220, 32, 40, 512
 	}
 	if cfg.Replay != "" {
 		return replayC10(cfg, out)
 	}
 	var plans []plan
-	add := func(d *abi.Decl, g *abi.Gen, kind string) {
+	add := func(d *abi.Decl, g *abi.Gen, kind string, limit int) {
 		var base []byte
-		for try := 0; try < 40; try++ {
+		var val *abi.Val
+		for try := 0; try < 60; try++ {
 			v := g.Value(d.Root, 3)
 			base = abi.Encode(d.Root, v)
-			if len(base) <= 32*maxWords {
+			if len(base) <= 32*limit {
+				val = v
 				break
 			}
 			base = nil
@@ -180,16 +200,34 @@ func runC10(cfg lib.Cfg) error {
 		if base == nil {
 			return
 		}
-		plans = append(plans, plan{d: d, base: base, muts: mutations(g.R, base, nRandom), kind: kind})
+		plans = append(plans, plan{d: d, base: base, muts: mutations(g.R, base, abi.Layout(d.Root, val), nRandom, allTrunc), kind: kind})
+	}
+	// the offset window of an element of a dynamically sized array: string[] {"a","b"}
+	// (256 bytes) truncated to every length, head slot 1 rewritten to 190..226
+	{
+		ins := []*abi.Ty{mkTy("string", 0, true, 0)}
+		nameAll(ins)
+		d, err := abi.NewDecl("W0", ins)
+		if err != nil {
+			return err
+		}
+		v := &abi.Val{Elems: []*abi.Val{{Elems: []*abi.Val{{B: []byte("a")}, {B: []byte("b")}}}}}
+		base := abi.Encode(d.Root, v)
+		ms := mutations(r.Fork(), base, abi.Layout(d.Root, v), 0, 512)
+		for x := 186; x <= 230; x++ {
+			ms = append(ms, abi.Mut{Kind: "wordv", I: 3, V: uint64(x)}, abi.Mut{Kind: "wordv", I: 2, V: uint64(x)})
+		}
+		plans = append(plans, plan{d: d, base: base, muts: ms, kind: "corpus-offset-window"})
 	}
 	for i, ins := range corpusC10() {
 		d, err := abi.NewDecl(fmt.Sprintf("M%d", i), ins)
 		if err != nil {
 			return err
 		}
-		add(d, &abi.Gen{R: r.Fork(), MaxDepth: 2}, "corpus")
+		add(d, &abi.Gen{R: r.Fork(), MaxDepth: 2, MinArr: 2}, "corpus", 16)
 	}
-	for i := 0; len(plans) < nDecl+8 && i < 50*nDecl; i++ {
+	nCorpus := len(plans)
+	for i := 0; len(plans) < nDecl+nCorpus && i < 50*nDecl; i++ {
 		g := &abi.Gen{R: r.Fork(), MaxDepth: 2, AllowOut: i%5 == 4}
 		d, err := abi.NewDecl(fmt.Sprintf("R%d", i), g.Inputs(true))
 		if err != nil {
@@ -198,7 +236,7 @@ func runC10(cfg lib.Cfg) error {
 		if d.Panic != "" || (d.Root.Depth() == 0 && !d.Root.Dynamic() && i%4 != 0) {
 			continue
 		}
-		add(d, g, "random")
+		add(d, g, "random", maxWords)
 	}
 	// job file for the child (inside the output directory, never under /tmp)
 	job := make([]jobDecl, len(plans))
